@@ -1,6 +1,7 @@
 package main
 
 import (
+	"path/filepath"
 	"fmt"
 	"go/token"
 	"go/types"
@@ -128,9 +129,6 @@ func (x *Exec) callFunc(fr *Frame, st *State, fn *ssa.Function, free []Value, ar
 	}
 	if spec != nil && !spec.Inline && !forceInline {
 		x.usedSpecs[key] = true
-		if spec.Assume {
-			x.assumedSpecs[key] = true
-		}
 		return x.applyContract(fr, st, spec, key, x.paramNames(fn, spec), args, rt, resultNames(fn.Signature), pos)
 	}
 	if forceInline || x.canInline(fn, spec) {
@@ -415,7 +413,12 @@ func (x *Exec) ghostLeaf(name string) *LeafInfo {
 func (x *Exec) applyContract(fr *Frame, st *State, spec *FuncSpec, key string, names []string, args []Value, rt types.Type, resNames []string, pos token.Pos) Value {
 	x.usedSpecs[key] = true
 	if spec.Assume {
-		x.assumedSpecs[key] = true
+		// name the file of an assumed contract that lives outside the repository
+		if strings.HasSuffix(spec.File, ".spec") {
+			x.assumedSpecs[key+" ["+filepath.Base(spec.File)+"]"] = true
+		} else {
+			x.assumedSpecs[key+" [assumed in "+filepath.Base(filepath.Dir(spec.File))+"/"+filepath.Base(spec.File)+"]"] = true
+		}
 	}
 	if x.em.inQuant > 0 {
 		x.fail("contract-specified function %s called under a quantifier in a contract", key)
